@@ -38,7 +38,7 @@ try:
 
         def one(c):
             e2 = dict(os.environ, VERIF_REPO=wt, VERIF_OUT=scratch, VERIF_DRV=os.path.join(scratch, "drv"))
-            r = sh(f"cd {HOME} && ./check {c} --no-audit", env=e2)
+            r = sh(f"cd {HOME} && timeout 1800 ./check {c} --no-audit", env=e2)
             lines = [l for l in r.stdout.splitlines() if "VIOLATION" in l]
             detail = ""
             for l in lines[:1]:
